@@ -1,4 +1,5 @@
 import TpmVerif.Model.FailMode
+import TpmVerif.Model.Frame
 /-! C17 — failure mode is contained and reported.  Theorems about `Model.FailMode` for ALL request byte strings. -/
 namespace TpmVerif.Props.C17
 open TpmVerif TpmVerif.Model.FailMode
@@ -28,8 +29,15 @@ theorem okResponse_wf (p : Bytes) (h : p.length + 10 < 4294967296) : WellFormed 
 theorem testResultParams_length (f : FailInfo) : (testResultParams f).length = 18 := by
   simp [testResultParams, be16_length, be32_length]
 
-theorem capParams_length (pt count : Nat) : (capParams pt count).length = 17 := by
-  simp [capParams, be32_length]
+/-- an empty list is 9 bytes (moreData, capability, count = 0), a list of one property 17 -/
+theorem capParams_length (pt count : Nat) : (capParams pt count).length = if count > 0 then 17 else 9 := by
+  by_cases h : count > 0
+  · simp [capParams, be32_length, h]
+  · have h0 : count = 0 := by omega
+    simp [capParams, be32_length, h0]
+
+theorem capParams_length_le (pt count : Nat) : (capParams pt count).length ≤ 17 := by
+  rw [capParams_length]; split <;> omega
 
 /-- **every request byte string gets a well-formed answer in failure mode** -/
 theorem respond_wf (f : FailInfo) (req : Bytes) : WellFormed (respond f req) := by
@@ -45,7 +53,7 @@ theorem respond_wf (f : FailInfo) (req : Bytes) : WellFormed (respond f req) := 
         · split
           · split
             · exact failureHeader_wf
-            · exact okResponse_wf _ (by rw [capParams_length]; decide)
+            · exact okResponse_wf _ (Nat.lt_of_le_of_lt (Nat.add_le_add_right (capParams_length_le _ _) 10) (by decide))
           · exact failureHeader_wf
         · exact failureHeader_wf
   · exact failureHeader_wf
@@ -104,9 +112,199 @@ theorem failure_sticky {σ : Type} (s : St σ) (reqs : List Bytes) :
   | nil => rfl
   | cons r rs ih => simpa [execInFailure] using ih
 
+/-! ### The answers of failure mode under the response grammar of C01 -/
+section Conforms
+open TpmVerif.Model.Frame
+
+theorem rdBE_be16_head (v : Nat) (rest : Bytes) (h : v < 65536) : rdBE (be16 v ++ rest) 0 2 = some v := by
+  unfold rdBE
+  have : 0 + 2 ≤ (be16 v ++ rest).length := by simp [be16_length]
+  simp only [this, if_true]
+  have e : ((be16 v ++ rest).drop 0).take 2 = be16 v := by simp [be16]
+  rw [e, beNat_be16 _ h]
+
+theorem rdBE_be32_head (v : Nat) (rest : Bytes) (h : v < 4294967296) : rdBE (be32 v ++ rest) 0 4 = some v := by
+  unfold rdBE
+  have : 0 + 4 ≤ (be32 v ++ rest).length := by simp [be32_length]
+  simp only [this, if_true]
+  have e : ((be32 v ++ rest).drop 0).take 4 = be32 v := by simp [be32]
+  rw [e, beNat_be32 _ h]
+
+theorem rdBE_skip (pre bs : Bytes) (n : Nat) : rdBE (pre ++ bs) pre.length n = rdBE bs 0 n := by
+  unfold rdBE
+  simp only [List.length_append, List.drop_left', Nat.zero_add, List.drop_zero]
+  have : (pre.length + n ≤ pre.length + bs.length) = (n ≤ bs.length) := by
+    apply propext; omega
+  simp only [this]
+
+/-- a success response built by `okResponse` is accepted by the response checker of C01 whenever its parameters parse
+    exactly under the grammar of the command that was sent -/
+theorem okResponse_conforms (req p : Bytes) (buf cc : Nat) (ps : List P) (x : Nat × Nat × Bool × Bool × Nat)
+    (htag : rdBE req 0 2 = some Gen.TPM_ST_NO_SESSIONS) (hcc : rdBE req 6 4 = some cc)
+    (hl : lookup cc = some x) (hrh : x.2.2.1 = false) (hg : respParams cc = some ps)
+    (hp : pSeq ps p = some []) (hlen : p.length + 10 ≤ buf) (hsmall : p.length + 10 < 4294967296) :
+    checkResponse req (okResponse p) buf = none := by
+  have hwf := okResponse_wf p hsmall
+  obtain ⟨h10, ht, hs⟩ := hwf
+  have hlen' : (okResponse p).length = p.length + 10 := by
+    simp [okResponse, be16_length, be32_length]; omega
+  have hrc : rdBE (okResponse p) 6 4 = some 0 := by
+    have : okResponse p = (be16 Gen.TPM_ST_NO_SESSIONS ++ be32 (p.length + 10)) ++ (be32 0 ++ p) := by simp [okResponse]
+    rw [this]
+    have h6 : (be16 Gen.TPM_ST_NO_SESSIONS ++ be32 (p.length + 10)).length = 6 := by simp [be16_length, be32_length]
+    rw [← h6, rdBE_skip, rdBE_be32_head 0 p (by decide)]
+  have hbody : (okResponse p).drop 10 = p := by
+    simp [okResponse, be16, be32]
+  obtain ⟨x1, x2, x3, x4, x5⟩ := x
+  simp only at hrh; subst hrh
+  unfold checkResponse
+  simp only [ht, hs, hrc, htag, hcc, hl, hg, Option.getD_some, hlen']
+  have hne : ¬ (p.length + 10 < 10) := by omega
+  have hle : ¬ (p.length + 10 > buf) := by omega
+  simp [hne, hle, hbody, hp, Gen.TPM_ST_NO_SESSIONS, Gen.TPM_ST_SESSIONS]
+
+
+theorem pN_exact (bs : Bytes) : pN bs.length bs = some [] := by simp [pN]
+theorem pN_append (pre rest : Bytes) : pN pre.length (pre ++ rest) = some rest := by simp [pN]
+
+/-- the GetTestResult parameters parse exactly as TPM2B_MAX_BUFFER ‖ TPM_RC -/
+theorem testResult_parses (f : FailInfo) : pSeq [pB2, pU32] (testResultParams f) = some [] := by
+  unfold testResultParams pSeq
+  simp only [List.foldl, Option.bind]
+  have h1 : pB2 (be16 12 ++ be32 f.function ++ be32 f.line ++ be32 f.code ++
+      be32 (if f.code = Gen.FATAL_ERROR_NV_UNRECOVERABLE then Gen.TPM_RC_NV_UNINITIALIZED else Gen.TPM_RC_FAILURE)) =
+      some (be32 (if f.code = Gen.FATAL_ERROR_NV_UNRECOVERABLE then Gen.TPM_RC_NV_UNINITIALIZED else Gen.TPM_RC_FAILURE)) := by
+    unfold pB2
+    have e : be16 12 ++ be32 f.function ++ be32 f.line ++ be32 f.code ++ be32 (if f.code = Gen.FATAL_ERROR_NV_UNRECOVERABLE then Gen.TPM_RC_NV_UNINITIALIZED else Gen.TPM_RC_FAILURE)
+        = be16 12 ++ (be32 f.function ++ be32 f.line ++ be32 f.code ++ be32 (if f.code = Gen.FATAL_ERROR_NV_UNRECOVERABLE then Gen.TPM_RC_NV_UNINITIALIZED else Gen.TPM_RC_FAILURE)) := by simp
+    rw [e, rdBE_be16_head 12 _ (by decide)]
+    simp only
+    have e2 : be16 12 ++ (be32 f.function ++ be32 f.line ++ be32 f.code ++ be32 (if f.code = Gen.FATAL_ERROR_NV_UNRECOVERABLE then Gen.TPM_RC_NV_UNINITIALIZED else Gen.TPM_RC_FAILURE))
+        = (be16 12 ++ be32 f.function ++ be32 f.line ++ be32 f.code) ++ be32 (if f.code = Gen.FATAL_ERROR_NV_UNRECOVERABLE then Gen.TPM_RC_NV_UNINITIALIZED else Gen.TPM_RC_FAILURE) := by simp
+    rw [e2]
+    have hl : (be16 12 ++ be32 f.function ++ be32 f.line ++ be32 f.code).length = 2 + 12 := by simp [be16_length, be32_length]
+    rw [← hl]; exact pN_append _ _
+  rw [h1]
+  show pU32 _ = some []
+  unfold pU32
+  have : (be32 (if f.code = Gen.FATAL_ERROR_NV_UNRECOVERABLE then Gen.TPM_RC_NV_UNINITIALIZED else Gen.TPM_RC_FAILURE)).length = 4 := be32_length _
+  rw [← this]; exact pN_exact _
+
+
+theorem drop4_be32 (v : Nat) (rest : Bytes) : (be32 v ++ rest).drop 4 = rest := by simp [be32]
+
+/-- the GetCapability parameters parse exactly as moreData ‖ TPMS_CAPABILITY_DATA (TPM_PROPERTIES, a list of 0 or 1 pairs) -/
+theorem cap_parses (pt count : Nat) : pSeq [pU8, pCapData] (capParams pt count) = some [] := by
+  unfold capParams pSeq
+  simp only [List.foldl, Option.bind]
+  have hcap : Gen.TPM_CAP_TPM_PROPERTIES = 6 := by decide
+  by_cases hc : count > 0
+  · simp only [hc, if_true]
+    have hone : (0 : Nat) < 1 := by decide
+    simp only [hone, if_true]
+    generalize (if pt < Gen.TPM_PT_MANUFACTURER then Gen.TPM_PT_MANUFACTURER else pt) = q
+    generalize (if q < Gen.TPM_PT_FIRMWARE_VERSION_2 then (1 : UInt8) else 0) = more
+    have h1 : pU8 ([more] ++ be32 Gen.TPM_CAP_TPM_PROPERTIES ++ be32 1 ++ (be32 q ++ be32 (propValue q))) =
+        some (be32 Gen.TPM_CAP_TPM_PROPERTIES ++ (be32 1 ++ (be32 q ++ be32 (propValue q)))) := by
+      simp [pU8, pN]
+    rw [h1]
+    show pCapData _ = some []
+    unfold pCapData
+    rw [rdBE_be32_head _ _ (by decide)]
+    simp only [hcap, drop4_be32]
+    rw [if_neg (by decide), if_neg (by decide), if_neg (by decide), if_pos trivial]
+    unfold pList32
+    rw [rdBE_be32_head 1 _ (by decide)]
+    simp only [drop4_be32, List.length_append, be32_length]
+    rw [if_pos (by decide)]
+    simp only [pRep, Option.bind]
+    have : pN 8 (be32 q ++ be32 (propValue q)) = some [] := by
+      have hl : (be32 q ++ be32 (propValue q)).length = 8 := by simp [be32_length]
+      rw [← hl]; exact pN_exact _
+    rw [this]
+  · have h0 : count = 0 := by omega
+    subst h0
+    simp only [Nat.lt_irrefl, if_false]
+    generalize (if pt < Gen.TPM_PT_MANUFACTURER then Gen.TPM_PT_MANUFACTURER else pt) = q
+    generalize (if q < Gen.TPM_PT_FIRMWARE_VERSION_2 then (1 : UInt8) else 0) = more
+    have h1 : pU8 ([more] ++ be32 Gen.TPM_CAP_TPM_PROPERTIES ++ be32 0 ++ []) =
+        some (be32 Gen.TPM_CAP_TPM_PROPERTIES ++ (be32 0 ++ [])) := by
+      simp [pU8, pN]
+    rw [h1]
+    show pCapData _ = some []
+    unfold pCapData
+    rw [rdBE_be32_head _ _ (by decide)]
+    simp only [hcap, drop4_be32]
+    rw [if_neg (by decide), if_neg (by decide), if_neg (by decide), if_pos trivial]
+    unfold pList32
+    rw [rdBE_be32_head 0 _ (by decide)]
+    simp [pRep, be32]
+
+
+/-- the bare failure header passes the response checker whatever was asked -/
+theorem failureHeader_conforms (req : Bytes) (buf : Nat) (hb : 10 ≤ buf) : checkResponse req failureHeader buf = none := by
+  unfold checkResponse
+  have hl : failureHeader.length = 10 := by decide
+  have h0 : rdBE failureHeader 0 2 = some Gen.TPM_ST_NO_SESSIONS := by decide
+  have h2 : rdBE failureHeader 2 4 = some 10 := by decide
+  have h6 : rdBE failureHeader 6 4 = some Gen.TPM_RC_FAILURE := by decide
+  have hne : Gen.TPM_RC_FAILURE ≠ 0 := by decide
+  have hgt : ¬ (10 > buf) := by omega
+  simp [hl, h0, h2, h6, hne, hgt]
+
+/-- **every answer of failure mode conforms to the response grammar of C01**: for every recorded failure and every request
+    byte string, what `TpmFailureMode` answers is accepted by `Model.Frame.checkResponse` — header consistent, an error a bare
+    header, a success (GetTestResult, GetCapability of TPM properties) parsing exactly under its command's schema -/
+theorem respond_conforms (f : FailInfo) (req : Bytes) (buf : Nat) (hb : 28 ≤ buf) :
+    checkResponse req (respond f req) buf = none := by
+  have hfh := failureHeader_conforms req buf (by omega)
+  unfold respond
+  split
+  · rename_i tag size cc htag hsize hcc
+    split
+    · exact hfh
+    · rename_i hts
+      have htag' : rdBE req 0 2 = some Gen.TPM_ST_NO_SESSIONS := by
+        have : tag = Gen.TPM_ST_NO_SESSIONS := by
+          by_cases h : tag = Gen.TPM_ST_NO_SESSIONS
+          · exact h
+          · exact absurd (Or.inl h) hts
+        rw [htag, this]
+      split
+      · rename_i hgtr
+        split
+        · exact hfh
+        · subst hgtr
+          have hg : respParams Gen.TPM_CC_GetTestResult = some [pB2, pU32] := by
+            have : respGrammar Gen.TPM_CC_GetTestResult = some [.b2, .u32] := by decide
+            simp [respParams, this, G.parser]
+          exact okResponse_conforms req _ buf Gen.TPM_CC_GetTestResult [pB2, pU32] (380, 0, false, true, 513) htag' hcc (by decide) rfl hg
+            (testResult_parses f) (by rw [testResultParams_length]; exact hb) (by rw [testResultParams_length]; decide)
+      · split
+        · rename_i hgc
+          split
+          · split
+            · exact hfh
+            · subst hgc
+              have hg : respParams Gen.TPM_CC_GetCapability = some [pU8, pCapData] := by
+                have : respGrammar Gen.TPM_CC_GetCapability = some [.u8, .capData] := by decide
+                simp [respParams, this, G.parser]
+              exact okResponse_conforms req _ buf Gen.TPM_CC_GetCapability [pU8, pCapData] (378, 0, false, true, 512) htag' hcc (by decide) rfl hg
+                (cap_parses _ _) (Nat.le_trans (Nat.add_le_add_right (capParams_length_le _ _) 10) (by omega))
+                (Nat.lt_of_le_of_lt (Nat.add_le_add_right (capParams_length_le _ _) 10) (by decide))
+          · exact hfh
+        · exact hfh
+  · exact hfh
+
+end Conforms
+
 /-! non-vacuity / examples -/
 example : respond ⟨1, 2, 3⟩ [0x80, 0x01, 0, 0, 0, 10, 0, 0, 0x01, 0x7C] =
     okResponse (testResultParams ⟨1, 2, 3⟩) := by decide
 example : respond ⟨1, 2, 3⟩ [0x80, 0x01, 0, 0, 0, 12, 0, 0, 0x01, 0x7B, 0, 8] = failureHeader := by decide
+
+example : Model.Frame.checkResponse [0x80, 0x01, 0, 0, 0, 22, 0, 0, 0x01, 0x7A, 0, 0, 0, 6, 0, 0, 1, 0x0B, 0, 0, 0, 0]
+    (respond ⟨1, 2, 3⟩ [0x80, 0x01, 0, 0, 0, 22, 0, 0, 0x01, 0x7A, 0, 0, 0, 6, 0, 0, 1, 0x0B, 0, 0, 0, 0]) 4096 = none := by decide
+example : (respond ⟨1, 2, 3⟩ [0x80, 0x01, 0, 0, 0, 22, 0, 0, 0x01, 0x7A, 0, 0, 0, 6, 0, 0, 1, 0x0B, 0, 0, 0, 0]).length = 19 := by decide
 
 end TpmVerif.Props.C17
